@@ -350,10 +350,10 @@ def census():
     """process-wide mutable state in the crate (would invalidate API-call granularity)"""
     pat = r"static\s+mut\b|\bMutex\b|\bRwLock\b|\bAtomic[A-Z]\w*|\bOnceLock\b|\bOnceCell\b|unsafe\s+impl\s+Sync|env::set_var"
     hits = []
-    for fn in sorted(os.listdir("/repo/src")):
+    for fn in sorted(os.listdir(mcx.SRC)):
         if fn.endswith(".rs"):
             intest = False
-            for n, line in enumerate(open(os.path.join("/repo/src", fn), encoding="utf-8"), 1):
+            for n, line in enumerate(open(os.path.join(mcx.SRC, fn), encoding="utf-8"), 1):
                 if re.match(r"\s*(#\[cfg\(test\)\]|mod tests)", line):
                     intest = True
                 code = line.split("//")[0]
